@@ -385,16 +385,61 @@ def install_lock_seam(modules):
     # 2. every live object whose class (or which, being a class) is defined in athlib - whatever it is
     #    reachable from: instances kept in module globals, in containers, in closures, dict subclasses ...
     import gc
+    def slot_items(obj):
+        """(name, value) of the attributes a __slots__ class keeps outside any __dict__"""
+        out = []
+        for klass in type(obj).__mro__:
+            sl = klass.__dict__.get('__slots__', ())
+            if isinstance(sl, str):
+                sl = (sl,)
+            for name in sl:
+                if name in ('__dict__', '__weakref__'):
+                    continue
+                if name.startswith('__') and not name.endswith('__'):
+                    name = '_%s%s' % (klass.__name__.lstrip('_'), name)
+                try:
+                    out.append((name, getattr(obj, name)))
+                except Exception:
+                    pass
+        return out
+
     for obj in gc.get_objects():
         try:
-            if not is_ours(obj):
+            if not is_ours(obj) or isinstance(obj, type(sys)):
                 continue
-            vd = vars(obj)
         except Exception:
             continue
-        if isinstance(obj, type(sys)):
-            continue
-        rebind(list(vd.items()), (lambda kk, cc, o=obj: setattr(o, kk, cc)))
+        items = []
+        try:
+            items += list(vars(obj).items())
+        except Exception:
+            pass
+        if not isinstance(obj, type):
+            try:
+                items += slot_items(obj)
+            except Exception:
+                pass
+        if items:
+            rebind(items, (lambda kk, cc, o=obj: setattr(o, kk, cc)))
+        # a lock captured by a closure, or kept as a default argument, of a function defined in athlib
+        if isinstance(obj, type(install_lock_seam)):
+            try:
+                for cell in (obj.__closure__ or ()):
+                    try:
+                        c = conv(cell.cell_contents)
+                    except ValueError:
+                        continue
+                    if c is not None:
+                        cell.cell_contents = c; count[0] += 1
+                if obj.__defaults__ and any(conv(d) is not None for d in obj.__defaults__):
+                    obj.__defaults__ = tuple((conv(d) or d) if conv(d) is not None else d for d in obj.__defaults__)
+                    count[0] += 1
+                if obj.__kwdefaults__:
+                    for kk, d in list(obj.__kwdefaults__.items()):
+                        if conv(d) is not None:
+                            obj.__kwdefaults__[kk] = conv(d); count[0] += 1
+            except Exception:
+                pass
     return count[0]
 
 
@@ -451,7 +496,46 @@ def branch_lines(code):
     return r
 
 
+_code_opcounts = {}
+
+
+def op_counts(code):
+    """{line: number of bytecode instructions of that source line} for a code object (cached)."""
+    r = _code_opcounts.get(code)
+    if r is None:
+        r = {}
+        try:
+            cur = None
+            for ins in dis.get_instructions(code):
+                if ins.starts_line is not None:
+                    cur = ins.starts_line
+                if cur is not None and ins.opname not in ('RESUME', 'CACHE', 'NOP'):
+                    r[cur] = r.get(cur, 0) + 1
+        except Exception:
+            pass
+        _code_opcounts[code] = r
+    return r
+
+
+MON_TOOL = 3            # a free sys.monitoring tool id (PEP 669); settrace keeps its own
+
+
+def _monitoring():
+    mon = getattr(sys, 'monitoring', None)
+    if mon is None:
+        return None
+    try:
+        if mon.get_tool(MON_TOOL) is None:
+            mon.use_tool_id(MON_TOOL, 'thrsim')
+    except Exception:
+        return None
+    return mon
+
+
 class Sched(object):
+    """plan[tid][(file, line)][occurrence] = switch_to            pre-empt before that line runs, or
+                                            = (switch_to, n)      pre-empt *inside* the line, before its
+                                                                  n-th bytecode instruction (n >= 2)."""
     def __init__(self, programs, plan=None, first=0, pref=None, step_cap=300000,
                  athlib_dir=None, record=False, stall_s=2.5):
         self.n = len(programs)
@@ -482,6 +566,41 @@ class Sched(object):
         self.status = None          # 'ok' | 'deadlock' | 'stepcap' | 'stalled'
         self.ident2tid = {}
         self.lock_blocks = 0
+        self.op_switches = 0
+        self.armed = [None] * self.n      # per thread: [frame, instructions left, switch_to, key, occ, n]
+        self.mon = None
+
+    # ---- pre-emption inside a line (sys.monitoring INSTRUCTION events, armed for one line execution) ----
+    def _arm(self, tid, frame, to, n, key, k):
+        if self.mon is None:
+            self.mon = _monitoring()
+            if self.mon is None:
+                return self.preempt(tid, to, key, k)        # no PEP 669: fall back to the line boundary
+            self.mon.register_callback(MON_TOOL, self.mon.events.INSTRUCTION, self._on_instr)
+        self.armed[tid] = [frame, n, to, key, k, n]
+        self.mon.set_local_events(MON_TOOL, frame.f_code, self.mon.events.INSTRUCTION)
+
+    def _disarm(self, tid):
+        a = self.armed[tid]
+        self.armed[tid] = None
+        if a is not None and not any(b is not None and b[0].f_code is a[0].f_code for b in self.armed):
+            try:
+                self.mon.set_local_events(MON_TOOL, a[0].f_code, 0)
+            except Exception:
+                pass
+
+    def _on_instr(self, code, offset):
+        tid = self.ident2tid.get(_get_ident())
+        if tid is None:
+            return
+        a = self.armed[tid]
+        if a is None or sys._getframe(1) is not a[0]:
+            return
+        a[1] -= 1
+        if a[1] <= 0:
+            self._disarm(tid)
+            self.digest = ((self.digest * 1000003) ^ (tid << 24) ^ (a[5] << 12) ^ a[3][1]) & MASK
+            self.preempt(tid, a[2], a[3], a[4], op=a[5])
 
     # ---- tracing -------------------------------------------------------------------------
     def _make_tracers(self, tid):
@@ -510,6 +629,9 @@ class Sched(object):
                 self.wlines.add(key)
         if self.nsteps > self.step_cap:
             self._abort('stepcap')
+        a = self.armed[tid]
+        if a is not None and a[0] is frame:
+            self._disarm(tid)           # the armed line ended before its n-th instruction was reached
         tp = self.plan.get(tid)
         if tp:
             lp = tp.get(key)
@@ -518,7 +640,10 @@ class Sched(object):
                 k = o[key] = o.get(key, 0) + 1
                 to = lp.get(k)
                 if to is not None:
-                    self.preempt(tid, to, key, k)
+                    if type(to) is tuple:
+                        self._arm(tid, frame, to[0], to[1], key, k)
+                    else:
+                        self.preempt(tid, to, key, k)
 
     # ---- baton -----------------------------------------------------------------------------
     def _runnable(self, exclude=None):
@@ -527,12 +652,14 @@ class Sched(object):
                 return t
         return None
 
-    def preempt(self, tid, to, key, k):
+    def preempt(self, tid, to, key, k, op=None):
         if to == tid or self.state[to] not in (NEW, RUNNABLE):
             to = self._runnable(exclude=tid)
             if to is None:
                 return
-        self.switches.append((tid, os.path.relpath(key[0], self.adir), key[1], k, to))
+        self.switches.append((tid, os.path.relpath(key[0], self.adir), key[1], k, to) + ((op,) if op else ()))
+        if op:
+            self.op_switches += 1
         if any(self.incall[t] for t in range(self.n) if t != tid):
             self.overlap_switches += 1
         self.state[tid] = RUNNABLE
